@@ -192,13 +192,23 @@ class Singularity:
 
 def two_sided_limit(expr: sp.Expr, symbol: sp.Symbol, value: sp.Expr) -> sp.Expr:
     """The limit of an expression when the symbol approaches the value from
-    both sides.
+    both sides. For a Conditional whose conditions do not depend on the symbol
+    it is the Conditional of the limits of the branches (sympy would pick one
+    of the branches).
 
     Raises
     ------
     ValueError
         If the limits from the left and from the right differ
     """
+    if expr.has(sp.Piecewise):
+        folded = sp.piecewise_fold(expr)
+        if isinstance(folded, sp.Piecewise) and not any(
+            cond.has(symbol) for _, cond in folded.args
+        ):
+            return sp.Piecewise(
+                *[(two_sided_limit(e, symbol, value), cond) for e, cond in folded.args]
+            )
     return sp.limit(expr, symbol, value, dir="+-")
 
 
